@@ -10,7 +10,14 @@ import Sigc.Basic
   * `adaptors/bound_argument.h`: `bound_argument<T>`, `<reference_wrapper<T>>`, `<reference_wrapper<const T>>`;
                                  `visitor<bound_argument<T>>` = `visit_each(action, arg.visit())`, i.e. recursion into
                                  the bound value — which may itself be a functor (`BArg.fn`): a `mem_fun` functor,
-                                 a `slot` (then `visitor<slot>` makes the outer rep the parent), any adaptor expression
+                                 a `slot` (then `visitor<slot>` makes the outer rep the parent), any adaptor expression.
+                                 The generic `bound_argument<T>` also serves a bound type spelled as an *explicit
+                                 reference* (`bind_return<X&>(f, x)`, `bind<I, F, X&>(f, x)`: `BArg.xref` / `BArg.xcref`):
+                                 `T_type visited_` is then an `X&`, nothing is copied, `visit()` hands out the object
+                                 itself *with its own type* `X` (no `limit_reference` in between)
+  * `functors/slot_base.h`    : `slot_do_bind` / `slot_do_unbind`: the overload set of the action's `operator()`
+                                 (row `action` of the table): only `operator()(const trackable&)`, so an object that
+                                 arrives with a derived static type is registered through the derived-to-base conversion
   * `adaptors/adaptor_trait.h`: `adaptor_functor` (wrapper of every non-adaptor functor stored in an adaptor/slot)
   * `functors/mem_fun.h`      : `visitor<bound_mem_functor>`  (also `signal::make_slot()`, `signal_connect`)
   * `adaptors/{bind,bind_return,hide,retype,retype_return,compose,exception_catch,track_obj}.h`
@@ -20,8 +27,9 @@ import Sigc.Basic
   * `trackable.cc`            : `add_callback`, `remove_callback` (first live entry with that data)
 
   The member list of each visitor is the explicit table `codeTable`; `scan` interprets *a* table, so the
-  theorems are about the table as written and the unrepaired `bind<I>` row (`unrepairedTable`) and a
-  non-recursing `bound_argument` row (`boundLeafTable`) can be stated next to it.
+  theorems are about the table as written and the unrepaired `bind<I>` row (`unrepairedTable`), a
+  non-recursing `bound_argument` row (`boundLeafTable`) and an action with an extra catch-all no-op overload
+  (`byTypeDroppedTable`) can be stated next to it.
   No proofs in this file.
 -/
 namespace Sigc.Visit
@@ -54,6 +62,9 @@ inductive BArg
   | ref (o : Obj)     -- `std::ref(o)`
   | cref (o : Obj)    -- `std::cref(o)`
   | copy (o : Obj)    -- `o` passed by value: the functor owns a private copy, `o` itself is NOT referred to
+  | xref (o : Obj)    -- `o` bound with an explicitly spelled reference type: `bind_return<X&>(f, o)`,
+                      -- `bind<I, F, X&>(f, o)`, `bind<F, X&>(f, o)` — `bound_argument<X&>` keeps an `X&` to `o` itself
+  | xcref (o : Obj)   -- the same with `const X&`
   | fn (e : FExpr)    -- a functor expression bound BY VALUE (`bind(&run_then, continuation_slot)`,
                       -- `bind(&apply, mem_fun(obj, &T::get))`): `bound_argument<T>` with `T` the functor type;
                       -- the stored copy still refers to whatever `e` refers to
@@ -109,6 +120,8 @@ def BArg.refs : BArg → List Nat
   | .ref o => o.trk
   | .cref o => o.trk
   | .copy _ => []
+  | .xref o => o.trk
+  | .xcref o => o.trk
   | .fn e => referenced e
 
 /-- all bound arguments of a `bind` (= `bs.flatMap BArg.refs`, see `refsOf_eq_flatMap`) -/
@@ -226,6 +239,8 @@ inductive VSpec
   | exception_catch
   | track_obj
   | slot               -- functors/slot.h `visitor<slot<…>>` (bind/unbind overloads)
+  | action             -- not a visitor: the overload set of `operator()` of the action that `visit_each_trackable`
+                       -- is run with (functors/slot_base.h `slot_do_bind` / `slot_do_unbind`)
   deriving DecidableEq, Repr
 
 /-- what a visitor passes on -/
@@ -246,6 +261,8 @@ inductive Mem
   | catcher_
   | objs_        -- `track_obj_functor::obj_` tuple through `tuple_for_each`
   | rep_parent   -- `target.rep_->set_parent(action.action_.rep_, …)` / `unset_parent()`
+  | as_trackable -- (row `action`) `void operator()(const trackable& t) const`: add / remove the callback in `t`
+  | as_own_type_noop -- (row `action`, not in the current tree) `template<typename T> void operator()(const T&) const {}`
   deriving DecidableEq, Repr
 
 abbrev Table := VSpec → List Mem
@@ -268,6 +285,7 @@ def codeTable : Table
   | .exception_catch   => [.functor_, .catcher_]
   | .track_obj         => [.functor_, .objs_]
   | .slot              => [.rep_parent]
+  | .action            => [.as_trackable]
 
 /-- the table before "fix: bind<I>() visitor must visit every bound argument" (finding F1) -/
 def unrepairedTable : Table
@@ -281,16 +299,50 @@ def boundLeafTable : Table
   | .bound_argument => [.visit_ref_only]
   | s => codeTable s
 
+/-- a table that differs from the code in the action's overload set: `slot_do_bind` / `slot_do_unbind` with an
+    additional catch-all no-op overload `template<typename T> void operator()(const T&) const {}` ("an object that
+    arrives with its own derived type is a by-value copy inside the functor; no point in registering with it").
+    Overload resolution then sends every object whose static type is a class *derived* from `trackable` to the
+    no-op (exact match beats the derived-to-base conversion); only arguments of static type `sigc::trackable`
+    (handed out by `limit_reference`) are still registered. -/
+def byTypeDroppedTable : Table
+  | .action => [.as_trackable, .as_own_type_noop]
+  | s => codeTable s
+
 /-- run one row: every member of the row, in order, interpreted by `f` -/
 def row (tbl : Table) (s : VSpec) (f : Mem → Rep) : Rep := Rep.seq ((tbl s).map f)
 
-/-- `limit_trackable_target::operator()(const T&)`: calls `slot_do_bind` iff `is_base_of_or_same_v<trackable, T>` -/
-def act (t : Tgt) (isTrackableType : Bool) : Rep := if isTrackableType then .reg t .done else .done
+/-- the *static* type with which an object reaches the action, relative to `sigc::trackable` -/
+inductive STy
+  | trackable   -- exactly `sigc::trackable` (what `limit_reference<T, true>::visit()` hands out)
+  | derived     -- a class derived from `sigc::trackable` (directly or through a virtual base), with its own type
+  | other       -- anything else (`int`, a functor type, a plain struct, `sigc::signal`)
+  deriving DecidableEq, Repr
+
+/-- an object of class kind `k` visited with its own type -/
+def STy.ofKind (k : Kind) : STy := if k.derivesTrackable then .derived else .other
+
+/-- an object of class kind `k` behind a `limit_reference`: `limit_reference<T, is_base_of<trackable, T>>::visit()` is
+    the `trackable&` base sub-object for a derived class, the `T&` itself otherwise -/
+def STy.limited (k : Kind) : STy := if k.derivesTrackable then .trackable else .other
+
+/-- `limit_trackable_target::operator()(T&&)`: `if constexpr (is_base_of_or_same_v<trackable, T>)` (decayed `T`, so a
+    `const X&` counts as `X`) `std::invoke(action_, type)`, else nothing.  `std::invoke` then performs overload
+    resolution in the action's overload set (row `action`): `operator()(const trackable&)` accepts a `trackable`
+    (exact) and any derived class (derived-to-base conversion, also through a virtual base); a catch-all
+    `template<T> operator()(const T&)`, if the set has one, is an exact match for a derived class and wins there,
+    and loses against the non-template overload for `trackable` itself. -/
+def act (tbl : Table) (t : Tgt) : STy → Rep
+  | .other => .done
+  | .trackable => if (tbl .action).contains .as_trackable then .reg t .done else .done
+  | .derived =>
+    if (tbl .action).contains .as_own_type_noop then .done
+    else if (tbl .action).contains .as_trackable then .reg t .done else .done
 
 /-- primary `visitor<T>` on an object whose static type is `T`; the action is a `limit_trackable_target` -/
-def visitPrimary (tbl : Table) (t : Tgt) (isTrackableType : Bool) : Rep :=
+def visitPrimary (tbl : Table) (t : Tgt) (ty : STy) : Rep :=
   row tbl .primary fun
-    | .self => act t isTrackableType
+    | .self => act tbl t ty
     | _ => .done
 
 /-- `visitor<limit_reference<T>>`: `visit_each(action, target.visit())`.  For `is_base_of<trackable,T>`
@@ -298,7 +350,7 @@ def visitPrimary (tbl : Table) (t : Tgt) (isTrackableType : Bool) : Rep :=
     otherwise the `T&` itself, which `limit_trackable_target` then drops. -/
 def visitLimRef (tbl : Table) (o : Obj) : Rep :=
   row tbl .limit_reference fun
-    | .visit => visitPrimary tbl (.ext o.id) o.kind.derivesTrackable
+    | .visit => visitPrimary tbl (.ext o.id) (STy.limited o.kind)
     | _ => .done
 
 def visitObjs (tbl : Table) (ts : List Obj) : Rep := Rep.seq (ts.map (visitLimRef tbl))
@@ -313,7 +365,7 @@ def stored (tbl : Table) (isAd : Bool) (r : Rep) : Rep :=
 mutual
 /-- `visit_each(limit_trackable_target<slot_do_bind>, e)` -/
 def scan (tbl : Table) : FExpr → Rep
-  | .leaf => visitPrimary tbl (.own 0) false
+  | .leaf => visitPrimary tbl (.own 0) .other
   | .memFun o => row tbl .bound_mem_functor fun
       | .obj_ => visitLimRef tbl o
       | _ => .done
@@ -373,11 +425,15 @@ def scan (tbl : Table) : FExpr → Rep
 /-- `visitor<bound_argument<T>>`: `visit_each(action, arg.visit())`.  `visit()` is the `limit_reference` for a
     `reference_wrapper`, otherwise the stored value itself: an `int`, a by-value object (primary visitor), or a
     functor — then `visit_each` dispatches to *that functor's* visitor (`visitor<bound_mem_functor>`,
-    `visitor<slot>`, an adaptor's visitor, …); the value is stored as `T`, not as `adaptor_type`. -/
+    `visitor<slot>`, an adaptor's visitor, …); the value is stored as `T`, not as `adaptor_type`.
+    For `T = X&` / `const X&` (`xref` / `xcref`) the "stored value" is a reference to the user's object: `visit()`
+    (`const T_type&`, reference-collapsed to `X&`) hands out that object, `visit_each` deduces `T_functor = X`,
+    finds no `visitor<X>` specialisation, the primary visitor calls `action(const X&)`, `limit_trackable_target`
+    tests `is_base_of<trackable, X>` on the decayed type and the action converts to `const trackable&`. -/
 def visitBound (tbl : Table) : BArg → Rep
   | .val => row tbl .bound_argument fun
-      | .visit => visitPrimary tbl (.own 0) false
-      | .visit_ref_only => act (.own 0) false
+      | .visit => visitPrimary tbl (.own 0) .other
+      | .visit_ref_only => act tbl (.own 0) .other
       | _ => .done
   | .ref o => row tbl .bound_argument fun
       | .visit => visitLimRef tbl o
@@ -388,12 +444,20 @@ def visitBound (tbl : Table) : BArg → Rep
       | .visit_ref_only => visitLimRef tbl o
       | _ => .done
   | .copy o => row tbl .bound_argument fun
-      | .visit => visitPrimary tbl (.own o.id) o.kind.derivesTrackable
-      | .visit_ref_only => act (.own o.id) o.kind.derivesTrackable
+      | .visit => visitPrimary tbl (.own o.id) (STy.ofKind o.kind)
+      | .visit_ref_only => act tbl (.own o.id) (STy.ofKind o.kind)
+      | _ => .done
+  | .xref o => row tbl .bound_argument fun
+      | .visit => visitPrimary tbl (.ext o.id) (STy.ofKind o.kind)
+      | .visit_ref_only => act tbl (.ext o.id) (STy.ofKind o.kind)
+      | _ => .done
+  | .xcref o => row tbl .bound_argument fun
+      | .visit => visitPrimary tbl (.ext o.id) (STy.ofKind o.kind)
+      | .visit_ref_only => act tbl (.ext o.id) (STy.ofKind o.kind)
       | _ => .done
   | .fn e => row tbl .bound_argument fun
       | .visit => scan tbl e
-      | .visit_ref_only => act (.own 0) false     -- `action(functor)`: a functor type is not a trackable
+      | .visit_ref_only => act tbl (.own 0) .other   -- `action(functor)`: a functor type is not a trackable
       | _ => .done
 
 /-- `tuple_for_each<TupleVisitorVisitEach>(tuple, action)`: every element, in order -/
@@ -463,6 +527,29 @@ def BArg.plain : BArg → Bool
 def plainArgs : List BArg → Bool
   | [] => true
   | b :: bs => b.plain && plainArgs bs
+end
+
+mutual
+/-- no bound argument with an explicitly spelled reference type, and no by-value copy of an object, anywhere inside:
+    every object reaches the action through a `limit_reference` -/
+def limitedOnly : FExpr → Bool
+  | .leaf | .memFun _ | .makeSlot _ | .signalConnect _ => true
+  | .bind _ f bs => limitedOnly f && limitedArgs bs
+  | .bindReturn f b => limitedOnly f && b.limited
+  | .hide _ f | .hideReturn f | .retype f | .retypeReturn f
+  | .trackObj f _ | .slot f => limitedOnly f
+  | .compose1 s g => limitedOnly s && limitedOnly g
+  | .compose2 s g1 g2 => limitedOnly s && limitedOnly g1 && limitedOnly g2
+  | .exceptionCatch f c => limitedOnly f && limitedOnly c
+
+def BArg.limited : BArg → Bool
+  | .copy _ | .xref _ | .xcref _ => false
+  | .fn e => limitedOnly e
+  | _ => true
+
+def limitedArgs : List BArg → Bool
+  | [] => true
+  | b :: bs => b.limited && limitedArgs bs
 end
 
 /-! ## the callback list of one trackable (`trackable_callback_list`) -/
@@ -550,6 +637,8 @@ def parseBArg (p : Parser) : List String → Option (BArg × List String)
   | "ref" :: o :: r => (parseObj o).map fun o => (.ref o, r)
   | "cref" :: o :: r => (parseObj o).map fun o => (.cref o, r)
   | "copy" :: o :: r => (parseObj o).map fun o => (.copy o, r)
+  | "xref" :: o :: r => (parseObj o).map fun o => (.xref o, r)
+  | "xcref" :: o :: r => (parseObj o).map fun o => (.xcref o, r)
   | "fun" :: r => (p r).map fun (e, r1) => (.fn e, r1)
   | _ => none
 
@@ -635,7 +724,7 @@ def tiedIds (e : FExpr) : List Nat :=
 def showTable (tbl : Table) : String :=
   let specs : List VSpec := [.primary, .limit_reference, .bound_argument, .adaptor_functor,
     .bound_mem_functor, .bind_loc, .bind_last, .bind_return, .hide, .retype, .retype_return, .compose1,
-    .compose2, .exception_catch, .track_obj, .slot]
+    .compose2, .exception_catch, .track_obj, .slot, .action]
   let short (x : String) : String := (x.splitOn ".").getLastD ""
   " ".intercalate (specs.map fun s =>
     short (reprStr s) ++ "=" ++ ",".intercalate ((tbl s).map fun m => short (reprStr m)))
@@ -644,7 +733,7 @@ def showTable (tbl : Table) : String :=
     `<expr in prefix notation>`  →  `regs=<own rep's targets in visiting order> all=<incl. inner reps>
     refd=<referenced> tied=<ids whose destruction invalidates> kids=<inner reps> depth=<n>`;
     `table` prints the visitor table; `old <expr>` evaluates with the unrepaired table, `boundleaf <expr>` with
-    `boundLeafTable`. -/
+    `boundLeafTable`, `bytype <expr>` with `byTypeDroppedTable`. -/
 def processLine (line : String) : String :=
   match words line with
   | ["table"] => "table " ++ showTable codeTable
@@ -657,6 +746,11 @@ def processLine (line : String) : String :=
     match parseE (toks.length + 1) toks with
     | some (e, []) => "regs=" ++ showTgts (repOf boundLeafTable e).regs
         ++ " all=" ++ showTgts (repOf boundLeafTable e).allRegs ++ " refd=" ++ showNats (referenced e)
+    | _ => "parse-error"
+  | "bytype" :: toks =>
+    match parseE (toks.length + 1) toks with
+    | some (e, []) => "regs=" ++ showTgts (repOf byTypeDroppedTable e).regs
+        ++ " all=" ++ showTgts (repOf byTypeDroppedTable e).allRegs ++ " refd=" ++ showNats (referenced e)
     | _ => "parse-error"
   | toks =>
     match parseE (toks.length + 1) toks with
